@@ -114,6 +114,9 @@ def mk_bin(op, l, r):
         return ("rep", l, r)
     if op == "*" and r[0] == "list":
         return ("rep", r, l)
+    if op == "*" and l[0] not in ("list", "rep") and r[0] not in ("list", "rep") and not (is_const(l) and isinstance(l[1], str)) \
+            and not (is_const(r) and isinstance(r[1], str)):
+        l, r = sorted((l, r), key=skey)
     if op in COMMUT:
         # associative + commutative: flatten, fold constants, sort, rebuild left-nested
         ops = []
@@ -496,7 +499,20 @@ class SymEval:
         return ("opaque", "await")
 
     def e_Call(self, n):
-        f = self.expr(n.func)
+        if isinstance(n.func, ast.Attribute) and self.use_heap:
+            # method receiver: keep the access path (identity of the object), not the value last stored there
+            self.use_heap = False
+            try:
+                base = self.expr(n.func.value)
+            finally:
+                self.use_heap = True
+            if is_heap_path(base) and base[0] in ("attr", "sub") and base != SELF and n.func.attr in (
+                    "append", "extend", "insert", "remove", "pop", "clear", "put", "get", "copy"):
+                f = ("attr", base, n.func.attr)
+            else:
+                f = self.expr(n.func)
+        else:
+            f = self.expr(n.func)
         args = tuple(self.expr(a) for a in n.args)
         kwargs = tuple((k.arg if k.arg else "**", self.expr(k.value)) for k in n.keywords)
         # pure folds that only read syntax
@@ -509,6 +525,18 @@ class SymEval:
             return ("c", int(args[0][1]))
         if f == ("glob", "list") and len(args) == 1 and args[0][0] == "list":
             return args[0]
+        # x.to_bytes(n, 'little') with constant n: the n little-endian bytes of x
+        if f[0] == "attr" and f[2] == "to_bytes":
+            kw = dict(kwargs)
+            ln = args[0] if args else kw.get("length")
+            bo = args[1] if len(args) > 1 else kw.get("byteorder")
+            if ln is not None and is_const(ln) and isinstance(ln[1], int) and 0 < ln[1] <= 16 and bo in (("c", "little"), ("c", "big")) \
+                    and kw.get("signed", ("c", False)) == ("c", False):
+                items = [mk_bin("&", mk_bin(">>", f[1], ("c", 8 * i)) if i else f[1], ("c", 255)) for i in range(ln[1])]
+                if bo[1] == "big":
+                    items = items[::-1]
+                self.effects.append(Eff("call", None, ("call", f, args, kwargs), n))
+                return ("list", tuple(items))
         # dict.get on a dict display (kwargs of an inlined constructor)
         if f[0] == "attr" and f[2] == "get" and f[1][0] == "dict" and 1 <= len(args) <= 2 and is_const(args[0]) \
                 and all(is_const(k) for k, _ in f[1][1]):
